@@ -45,6 +45,10 @@ class Ob:
         self.deps = []
 
 
+class ReplayDone(BaseException):
+    """raised in replay mode once the recorded obligation / finding has been re-examined on the real code"""
+
+
 class Harness:
     def __init__(self, pid, tier, seed=0, workers=None):
         self.pid, self.tier, self.seed = pid, tier, seed
@@ -72,6 +76,10 @@ class Harness:
         kf = os.path.join(VERIF, 'known_findings.json')
         self.known = json.load(open(kf)) if os.path.exists(kf) else []
         self.quick = (tier == 'quick')
+        # replay mode (bin/vcheck <ID> --replay file): the harness runs as usual, no query is sent to the solver, and the replay closure
+        # of the recorded obligation is executed on the recorded model when that obligation is reached
+        self.replay_target = None
+        self.replay_outcome = None
         # per-obligation time cap (seconds): the thorough tier is sized by total wall time, not by letting every hard obligation burn
         # its own budget; VERIF_CAP overrides
         self.cap = float(os.environ.get('VERIF_CAP', '0') or 0) or (45 if self.quick else 50)
@@ -100,6 +108,8 @@ class Harness:
         if every one of them was itself discharged in this run"""
         timeout = timeout or (15 if self.quick else 60)
         timeout = min(timeout, self.cap)
+        if self.replay_target is not None:
+            return self._replay_stub(name, replay, key)
         if linear:
             # decide on the linear abstraction (every non-linear subterm an opaque variable): unsat there is unsat here
             from .terms import linear_abstract
@@ -154,6 +164,8 @@ class Harness:
         are handed to the replay at that point (a confirmed difference is a violation, no solver needed to find it);
         everything else is an ordinary equality obligation."""
         from .terms import evalf
+        if self.replay_target is not None:
+            return self._replay_stub(name, replay, key)
         if z3.is_true(z3.simplify(l == r)):
             return self.prove(name, [], z3.BoolVal(True), key=key)
         try:
@@ -210,12 +222,27 @@ class Harness:
     def path_infeasible(self, name, hyps, timeout=6):
         """synchronous feasibility query for a path the explorer could not prune within its own budget: True iff the hypotheses are
         unsatisfiable (the path does not exist; the harness then states no obligations on it).  Recorded as a note."""
+        if self.replay_target is not None:
+            return False
         r = _solve.solve(_smt2(hyps, z3.BoolVal(True)), timeout, False, ('default',))
         self.solver_time += r.get('time', 0)
         if r['result'] == 'unsat':
             self.notes.append('%s: infeasible path (hypotheses unsatisfiable), no obligations stated' % name)
             return True
         return False
+
+    def _replay_stub(self, name, replay, key):
+        ob = Ob(name, [], z3.BoolVal(True), 'prove', 1, replay, None, key, None)
+        ob.status = 'skipped'
+        tgt = self.replay_target
+        if replay is not None and name == tgt.get('obligation'):
+            try:
+                ok, detail = replay(tgt.get('model') or {})
+            except Exception as e:
+                ok, detail = False, 'replay raised %s: %s' % (type(e).__name__, str(e)[:200])
+            self.replay_outcome = (bool(ok), '%s: %s' % (name, detail))
+            raise ReplayDone()
+        return ob
 
     def prove_eqs(self, name, hyps, lhs, rhs, **kw):
         """componentwise equality obligations; neg_margin asks for a witness with visible margin"""
@@ -228,6 +255,8 @@ class Harness:
 
     def reach(self, name, hyps, timeout=None, extra=None):
         """vacuity guard: hyps must be satisfiable"""
+        if self.replay_target is not None:
+            return self._replay_stub(name, None, None)
         ob = Ob(name, hyps, None, 'reach', timeout or 10)
         ob.fut = self.pool.submit(_solve.solve, _smt2(hyps, extra if extra is not None else z3.BoolVal(True)),
                                   ob.timeout, False)
@@ -235,6 +264,8 @@ class Harness:
         return ob
 
     def twin(self, name, hyps, false_goal, timeout=None):
+        if self.replay_target is not None:
+            return self._replay_stub(name, None, None)
         """reachability twin: a deliberately false goal must be refuted (query sat)"""
         ob = Ob(name, hyps, false_goal, 'twin', timeout or 10)
         ob.fut = self.pool.submit(_solve.solve, _smt2(hyps, ob.neg), ob.timeout, False)
@@ -252,6 +283,8 @@ class Harness:
         """Equality modulo polynomial side relations (each relation term == 0), by untrusted sympy cofactors whose
         polynomial identity is then checked by z3 (in the worker, on the original terms) with no hypotheses.
         Non-polynomial goals and goals without certificate fall back to a direct solver query."""
+        if self.replay_target is not None:
+            return self._replay_stub(name, replay, key)
         ob = Ob(name, list(hyps) + [r == 0 for r in relations], lhs == rhs, 'cert', min(timeout or (20 if self.quick else 60), 2 * self.cap), replay, None, key, group)
         ob.deps = list(depends)
         ob.sample = list(relations)
@@ -271,6 +304,8 @@ class Harness:
         """lo <= expr <= hi under hyps, where expr is first reduced modulo polynomial relations (each == 0, and
         implied by hyps) by untrusted sympy division with the variables in `elim` eliminated first; z3 checks the
         free identity expr == sum q_i g_i + rem and then the bound on rem."""
+        if self.replay_target is not None:
+            return self._replay_stub(name, replay, key)
         goal = z3.And(*([expr >= lo] if lo is not None else []) + ([expr <= hi] if hi is not None else []))
         ob = Ob(name, list(hyps), goal, 'certb', timeout or (20 if self.quick else 60), replay, None, key, None)
         ob.detail = (expr, relations, lo, hi)
@@ -446,6 +481,12 @@ class Harness:
 
     # ------------------------------------------------------------------ violations / known findings
     def violation(self, key, message, replay_data):
+        if self.replay_target is not None:
+            # findings raised directly by a harness (an exception of the real code on some path): reproduced iff reached again
+            if key == self.replay_target.get('key'):
+                self.replay_outcome = (True, message)
+                raise ReplayDone()
+            return
         for k in self.known:
             if k.get('property') == self.pid and k.get('status', 'open') == 'open' and k['key'] == key:
                 if key not in [h[0] for h in self.known_hits]:
@@ -475,6 +516,9 @@ class Harness:
 
     # ------------------------------------------------------------------ end
     def finish(self, level='other', explanation='', samples=None):
+        if self.replay_target is not None:
+            self.kill_pool()
+            return 0
         self.collect()
         self._apply_deps()
         self._apply_vacuous()
